@@ -1,22 +1,57 @@
 """C14 - index/state enumerations are bijections: every admissible state exactly once.
 
-Alphabet / bound / oracle per sub-check (all complete enumerations of the stated ranges):
+Alphabet / bound / oracle per sub-check (all complete enumerations of the stated ranges; every comparison is exact):
 
  range     every 2-d pairing: all z < Z and all (x,y) in an S x S square, both round trips, plus injectivity on the square
            Rosenberg-Strong d=3: all z < Z3 and an S3^3 cube.  hyperbolic pairing on a smaller range (it factorises).
+ range-d   the dimensions the base class offers beyond those: Rosenberg-Strong d=4, and the recursive d=3 pairing of
+           Szudzik / Pepis-Kalmar / hyperbolic (Cantor raises NotImplementedError for d != 2: not offered): all z < zmax
+           and a cube [0,n)^d, both round trips, injectivity
  powers    z = m^2+delta, m^3+delta for delta in -2..2 and m near powers of 10 / powers of 2 / floor(sqrt(2^53)) / the
            library's own size limit (an axis may have 1e8 points => mapped coordinates up to 2e8)
- zd        PairingToZd (omit zero on/off, d=2 Szudzik/RosenbergStrong/Cantor..., d=3 RosenbergStrong): every state of a
-           box [-n,n]^d is hit exactly once by project over indices < (2n+1)^d (those pairings that enumerate square shells),
-           pair o project = id on all indices, project o pair = id on all states of the box
- z1d       PairingToZ1d: all 1 <= L,R <= N; increasing enumeration is a bijection onto [-L,R]\\{0}, pair inverts it;
-           explicit-state search over call orders (history of project(i) calls on one object), invariant
-           project(i | history) = reference(i); canonical state = (_switch, _kk, frozenset(cached indices -> value))
+ zd        PairingToZd (omit zero on/off; d=2 Szudzik/RosenbergStrong/Cantor/PepisKalmar/hyperbolic, d=3 RosenbergStrong
+           and recursive Szudzik, d=4 RosenbergStrong): every state of a box [-n,n]^d is hit exactly once by project over
+           indices < (2n+1)^d (those pairings that enumerate square shells), pair o project = id on all indices,
+           project o pair = id on all states of the box
+ z1d       PairingToZ1d, omit_zero on and off: all 1 <= L,R <= N; increasing enumeration is a bijection onto [-L,R]\\{0}
+           (onto [-L,R] when zero is kept), pair inverts it; explicit-state search over histories of events on one object:
+           project(i) for every index i; project(j) on a SECOND object of another interval used in between (three indices);
+           the object replaced by a deepcopy of itself.  invariant project(i | history) = reference(i) (both objects);
+           canonical state = (_switch, _kk, cached (index, value) pairs before / after the last copy and of the 2nd object)
  lazy      lazy_indices_product(sizes) for every size tuple of length <= 4 with entries 1..4 == itertools.product (as list:
-           exactly once each; the order is also compared and reported under a separate key)
+           exactly once each); two generators alive at once (sizes / reversed sizes) consumed alternately and a second
+           call afterwards give what each gives alone
  states    StatesManager.project_index_to_state_increment over increasing indices, for 1-d grids (L,R) <= 5 and 2-d / 3-d
-           grids with per-axis (left,right) sizes <= 2/3: every in-grid non-origin state exactly once, then exhaustion;
-           also through a fresh InversionMethod: u=1-2^-53 forces the complete enumeration and the stored states are compared.
+           grids with per-axis (left,right) sizes <= 2/3, without boundary and with the rectangle / simplex boundaries
+           (1-d: rectangle), 2-d also over the pairings the factory does not take (RosenbergStrong, Cantor, PepisKalmar,
+           thorough: hyperbolic): every admissible non-origin state exactly once, then exhaustion; then the restart
+           protocol (x == max_logged) driven directly for three log sizes.
+ inversion the same enumeration observed where the library consumes it: a real InversionMethod on a real StatesManager
+           (pairing chosen as create_sampling_inversion_method does), probabilities that record the states they are asked
+           for, scripted u.  The log of the sampler is bounded (the library's bound of 1e6 states is scaled down by setting
+           `_max_storage` to 1, 2, n/2, n-2 of the n admissible states, and left alone = log holds everything); thorough
+           has one interval of 1 000 033 states with the library's bound untouched.  Histories: EVERY word of `depth`
+           (2 or 3) draws over the targets {first state, last logged, first / second beyond the log, middle of the rest,
+           last state, beyond the total mass (= exhaustion)}, each word on a fresh sampler, plus every (draw, deepcopy of
+           the sampler, draw) and (draw, a second sampler on a larger grid exhausted in between, draw).  Oracle per draw:
+           the states walked are consecutive states of the enumeration, none twice, starting no later than the first state
+           never produced so far and ending at the state the draw needs (the last admissible one for an exhausting draw),
+           and the state returned is the one of the wanted rank.
+ reuse     histories on RE-USED objects: one Domain (with its grid and pairing objects) kept through every word of
+           `depth` (2; thorough 3 in 1-d/2-d) operations out of {grid.refine() in place (what Coupling*.next_level does; in
+           1-d the interval pairing is rebuilt and re-assigned to domain.pairing), domain.grid re-assigned to a larger
+           grid, domain.boundary re-assigned (none <-> rectangle), deepcopy of the Domain (the copy is used from then
+           on), a second Domain on a larger grid enumerated in between (sharing boundary and, in n-d, pairing objects), a
+           manager left half-way}; at construction and after every operation a NEW StatesManager on the kept Domain must
+           enumerate exactly the admissible states of what the Domain holds now (brute force over the grid's public axes /
+           origin index and the boundary predicate), directly and through a sampler's exhausting draw.
+
+Exclusions (statement silent / not constructible): L = 0 or R = 0 intervals (PairingToZ1d states L, R > 0); grids whose axes
+have different origin indices (CTMCGrid takes one origin index: counted as skipped-unrepresentable-origin); MyBoundary (not
+convex, Domain's docstring excludes it); boundaries not containing the origin; a StatesManager built BEFORE its grid was
+refined and used afterwards (stale by construction: the library rebuilds the sampler); the state handed out together with
+the exhaustion signal (drawn with numpy's global generator: stubbed, not judged - C02's subject); Pepis-Kalmar domains larger
+than [-1,2] x [-1,1] and with boundaries (its indices grow like 4^r: the walk over the skipped indices gets long).
 """
 from __future__ import annotations
 
@@ -30,14 +65,22 @@ from mc import core
 PID = "C14"
 LEVEL = "model_checking"
 RULE = (
-    "complete ranges of indices and coordinate tuples, complete products of interval shapes / size tuples / grid shapes, "
-    "and BFS over call orders of the stateful 1-d projection; a case is non-trivial when it compares at least one "
-    "round trip / enumeration against the reference (itertools / explicit list); distinct = distinct case dict"
+    "complete ranges of indices and coordinate tuples, complete products of interval shapes / size tuples / grid shapes / "
+    "pairings / boundaries / log bounds, BFS over call orders of the stateful 1-d projection (with a second object and "
+    "deepcopy as events), every word of 2-3 scripted draws of the real inversion sampler over a menu of targets, every word "
+    "of 2-3 public operations on a re-used Domain; a case is non-trivial when it compares at least one round trip / "
+    "enumeration / walk against the reference (itertools / explicit list / brute force over the grid); distinct = distinct "
+    "case dict"
 )
 ASSUMPTIONS = [
     "ranges are bounded as stated in the evidence counters; near-perfect-power probes cover the library's own size limit",
-    "z1d call-order search: the menu is every index of the interval, depth as stated; states merged when (_switch,_kk,"
-    "cache contents) agree - the only fields project() reads or writes",
+    "z1d call-order search: the menu is every index of the interval plus three indices of a second object plus deepcopy, "
+    "depth as stated; states merged when (_switch,_kk,cache contents per object and copy generation) agree - the only "
+    "fields project() reads or writes",
+    "inversion: the bound of the sampler's log (1e6 states in the library) is scaled down through its attribute "
+    "_max_storage (skipped and counted if the attribute does not exist); thorough has one case with the bound untouched",
+    "numpy.random.choice (state handed out on exhaustion) is stubbed by 'first element' while the library runs; that state "
+    "is not judged",
 ]
 CHUNK = 1
 
@@ -113,6 +156,7 @@ def cases(tier):
     for L in range(1, N + 1):
         for R in range(1, N + 1):
             out.append({"sub": "z1d", "L": L, "R": R, "depth": 4 if (thorough and L + R <= 10) else 3})
+            out.append({"sub": "z1d", "L": L, "R": R, "depth": 3 if (thorough and L + R <= 10) else 2, "omit": False})
     # lazy product
     maxe = 4
     for length in range(1, 5):
@@ -146,7 +190,72 @@ def cases(tier):
                     out.append({"sub": "states", "shape": [[l, r1], [l, r2]], "boundary": bnd})
         for r1, r2, r3 in itertools.product((2, 3), repeat=3):
             out.append({"sub": "states", "shape": [[2, r1], [2, r2], [2, r3]], "boundary": bnd})
+    # the enumeration of a 2-d domain over the other pairings of the module (the largest admissible index is then not the
+    # index of a frontier state)
+    for pname in ("rosenbergstrong", "cantor", "pepiskalmar") + (("hyperbolic",) if thorough else ()):
+        for shape in ([[1, 1], [1, 1]], [[1, 2], [1, 1]], [[2, 1], [2, 2]], [[2, 3], [2, 2]]):
+            if pname == "pepiskalmar" and sum(map(sum, shape)) > 5:
+                continue  # indices grow like 2^(2 r): the walk over the skipped indices is too long
+            out.append({"sub": "states", "shape": shape, "pairing": pname})
+        if pname != "pepiskalmar":
+            for bnd in ("rectangle", "simplex"):
+                out.append({"sub": "states", "shape": [[2, 3], [2, 2]], "boundary": bnd, "pairing": pname})
+    for omit in (True, False):
+        out.append({"sub": "zd", "pairing": "hyperbolic", "dim": 2, "omit": omit, "n": 6 if thorough else 4})
+    # 1-d interval with a boundary strictly inside the grid (the 1-d branch of Domain takes the grid ends as frontier)
+    for L in range(2, M1 + 1):
+        for R in range(2, M1 + 1):
+            out.append({"sub": "states", "shape": [[L, R]], "boundary": "rectangle"})
+    # pairings in the dimensions the base class offers beyond the ones above (recursive d-dimensional pairing)
+    out.append({"sub": "range-d", "pairing": "rosenbergstrong", "dim": 4, "zmax": 200_000 if thorough else 20_000, "n": 12 if thorough else 7})
+    for name in ("szudzik", "pepiskalmar", "hyperbolic"):
+        out.append({"sub": "range-d", "pairing": name, "dim": 3, "zmax": 20_000 if thorough else 3_000,
+                    "n": (5 if name == "pepiskalmar" else 8) if thorough else (4 if name == "pepiskalmar" else 6)})
+    out.append({"sub": "zd", "pairing": "rosenbergstrong", "dim": 4, "omit": True, "n": 3 if thorough else 2})
+    out.append({"sub": "zd", "pairing": "szudzik", "dim": 3, "omit": True, "n": 4 if thorough else 2})
+    # the enumeration seen through its only caller in the library, InversionMethod.sample_with_u, with a log of bounded
+    # size (the library's bound is 1e6 states: scaled down here) and every history of `depth` draws over a menu of targets
+    inv_shapes = [([[L, R]], "none") for L in range(1, 5) for R in range(1, 5) if L + R >= 4]
+    inv_shapes += [([[a, b], [a, d]], "none") for a in (1, 2) for b in (1, 2) for d in (1, 2, 3)]
+    inv_shapes += [([[1, 1], [1, 2], [1, 1]], "none"), ([[2, 1], [2, 2], [2, 1]], "none")]
+    inv_shapes += [([[2, 3], [2, 2]], b) for b in ("rectangle", "simplex")] + [([[3, 2], [3, 4]], b) for b in ("rectangle", "simplex")]
+    inv_shapes += [([[2, 2], [2, 3], [2, 2]], b) for b in ("rectangle", "simplex")] + [([[3, 4]], "rectangle")]
+    if thorough:
+        inv_shapes += [([[a, b], [a, d]], "none") for a in (3, 4) for b in (2, 4) for d in (3, 5)]
+        inv_shapes += [([[l, r1], [l, r2]], b) for b in ("rectangle", "simplex") for l in (2, 3) for r1 in (3, 5) for r2 in (2, 4)]
+        inv_shapes += [([[2, r1], [2, r2], [2, r3]], b) for b in ("none", "rectangle", "simplex")
+                       for r1, r2, r3 in itertools.product((2, 3), repeat=3)]
+    seen_shapes = set()
+    for shape, bnd in inv_shapes:
+        if (repr(shape), bnd) in seen_shapes:
+            continue
+        seen_shapes.add((repr(shape), bnd))
+        for storage in ("one", "two", "half", "all-but-two", "default"):
+            deep = thorough or storage in ("two", "half")
+            out.append({"sub": "inversion", "shape": shape, "boundary": bnd, "storage": storage, "depth": 3 if deep else 2})
+    if thorough:
+        # the library's own bound, untouched: an interval with more states than the log holds, one sampler, one history
+        # of draws in which every ordered pair of targets occurs
+        out.append({"sub": "inversion", "shape": [[3, 1_000_030]], "boundary": "none", "storage": "default", "depth": 0})
+    # histories on RE-USED objects: one Domain (with its grid and pairing) across refine() in place / re-assigned public
+    # attributes / deepcopy / a second Domain used in between; a new StatesManager after every operation
+    reuse = [([[1, 1]], "none"), ([[2, 3]], "none"), ([[3, 2]], "none"), ([[3, 3]], "rectangle"),
+             ([[1, 1], [1, 1]], "none"), ([[1, 2], [1, 1]], "none"), ([[2, 1], [2, 3]], "none"), ([[2, 2], [2, 3]], "none"),
+             ([[2, 3], [2, 2]], "rectangle"), ([[2, 3], [2, 2]], "simplex"), ([[3, 3], [3, 4]], "rectangle"), ([[3, 3], [3, 4]], "simplex"),
+             ([[1, 1], [1, 1], [1, 1]], "none"), ([[1, 2], [1, 1], [1, 2]], "none"),
+             ([[2, 2], [2, 3], [2, 2]], "rectangle"), ([[2, 2], [2, 3], [2, 2]], "simplex")]
+    if thorough:
+        reuse += [([[a, b], [a, d]], "none") for a in (1, 2, 3) for b in (1, 3) for d in (2, 4)]
+        reuse += [([[2, r1], [2, r2], [2, r3]], b) for b in ("none", "simplex") for r1, r2, r3 in itertools.product((1, 2), repeat=3)]
+    for shape, bnd in reuse:
+        dim = len(shape)
+        depth = 3 if (thorough and dim < 3) else 2
+        for first in REUSE_OPS:
+            out.append({"sub": "reuse", "shape": shape, "boundary": bnd, "first": first, "depth": depth})
     return out
+
+
+REUSE_OPS = ["refine", "regrid", "boundary", "copy", "other", "half"]
 
 
 # ----------------------------------------------------------------------------------------------------------------------
@@ -270,6 +379,44 @@ def _sub_range_xyz(sh, case):
     sh.nontriv()
 
 
+def _sub_range_d(sh, case):
+    """d-dimensional pairing / projection of the base class (recursive) and of Rosenberg-Strong for the dimensions not
+    covered by the 2-d / 3-d ranges: all z < zmax and the whole cube [0,n)^d, both round trips."""
+    name, dim, zmax, n = case["pairing"], case["dim"], case["zmax"], case["n"]
+    p = _pairings()[name]
+    seen = set()
+    for z in range(zmax):
+        sh.count("evaluations")
+        x = tuple(int(v) for v in p.projection(z, dim))
+        if len(x) != dim or min(x) < 0:
+            sh.violation(f"C14:pairing{dim}d:{name}:projection-not-in-N{dim}:z<2^26", f"projection({z},{dim}) = {x}", {"z": z})
+            continue
+        back = p.pairing(x)
+        if back != z:
+            sh.violation(f"C14:pairing{dim}d:{name}:pair-of-projection-differs:{_magnitude(z)}",
+                         f"pairing(projection({z},{dim})) = pairing({x}) = {back}", {"z": z, "x": x})
+        seen.add(x)
+    if len(seen) != zmax:
+        sh.violation(f"C14:pairing{dim}d:{name}:projection-not-injective:z<2^26", "two indices share a tuple", case)
+    zs = set()
+    cnt = 0
+    for t in itertools.product(range(n), repeat=dim):
+        sh.count("evaluations")
+        cnt += 1
+        z = int(p.pairing(t))
+        zs.add(z)
+        if name in ("pepiskalmar", "hyperbolic") and z > 2 ** 40:
+            continue  # the projection recurses / factorises over the size of z: injectivity only
+        back = tuple(int(v) for v in p.projection(z, dim))
+        if back != t:
+            sh.violation(f"C14:pairing{dim}d:{name}:projection-of-pair-differs:{_magnitude(z)}",
+                         f"projection(pairing({t})) = projection({z}) = {back}", {"t": t, "z": z, "back": back})
+    if len(zs) != cnt:
+        sh.violation(f"C14:pairing{dim}d:{name}:pairing-not-injective", "two tuples share an index", case)
+    sh.outcome((name, dim, len(seen), max(zs)))
+    sh.nontriv()
+
+
 def _sub_powers2(sh, case):
     name = case["pairing"]
     p = _pairings()[name]
@@ -354,7 +501,7 @@ def _sub_zd(sh, case):
     if omit and any(not any(t) for t in idx.values()):
         sh.violation(f"C14:zd:{name}:d{dim}:origin-enumerated", "origin has an index although zero is omitted", case)
     # shell-enumerating pairings: the first (2n+1)^d (-1) indices are exactly the box
-    if name in ("szudzik", "rosenbergstrong"):
+    if name == "rosenbergstrong" or (name == "szudzik" and dim == 2):
         N = (2 * n + 1) ** dim - (1 if omit else 0)
         got = [tuple(int(v) for v in p.project(i)) for i in range(N)]
         sh.count("evaluations", N)
@@ -388,57 +535,94 @@ def _z1d_reference(L, R):
 
 
 def _sub_z1d(sh, case):
+    import copy
+
     from rpylib.distribution.pairing import PairingToZ1d
 
     L, R, depth = case["L"], case["R"], case["depth"]
-    n = L + R
-    states = [x for x in range(-L, R + 1) if x != 0]
+    omit = case.get("omit", True)
+    kw = {} if omit else {"omit_zero": False}
+    tag = "" if omit else "zero-kept:"
+    n = L + R + (0 if omit else 1)
+    states = [x for x in range(-L, R + 1) if x != 0 or not omit]
     # (1) increasing order on a fresh object
-    p = PairingToZ1d((-L, R))
+    p = PairingToZ1d((-L, R), **kw)
     seq = [int(p.project(i)) for i in range(n)]
     sh.count("evaluations", n)
-    shape = "L=R" if L == R else ("L<R" if L < R else "L>R")
+    shape = tag + ("L=R" if L == R else ("L<R" if L < R else "L>R"))
     if sorted(seq) != states:
         sh.violation(f"C14:z1d:increasing-order-not-a-bijection:{shape}",
                      f"[-{L},{R}]: project(0..{n - 1}) = {seq}", {"seq": seq})
     if any(p.pair(s) != i for i, s in enumerate(seq)):
         sh.violation(f"C14:z1d:pair-does-not-invert-project:{shape}",
                      f"[-{L},{R}]: project = {seq}, pair(project) = {[p.pair(s) for s in seq]}", None)
-    q = PairingToZ1d((-L, R))
+    q = PairingToZ1d((-L, R), **kw)
     if sorted(q.pair(s) for s in states) != list(range(n)):
         sh.violation(f"C14:z1d:pair-not-onto-indices:{shape}", f"[-{L},{R}]: pair(states) = {[q.pair(s) for s in states]}", None)
-    ref = seq if sorted(seq) == states else _z1d_reference(L, R)
+    zero = [] if omit else [0]
+    ref = seq if sorted(seq) == states else zero + _z1d_reference(L, R)
 
-    # (2) call orders: explicit-state search; a state is the history of project(i) calls on one object
+    # (2) call orders: explicit-state search; a state is the history of events on one object:
+    #     i        project(i) on the object
+    #     ["o", i] project(i) on a SECOND object of another interval, used in between (leak through the class-level cache)
+    #     "c"      the object is replaced by a deepcopy of itself (the copy is used from then on)
+    L2, R2 = R + 1, L  # the second interval switches to the other side
+    n2 = L2 + R2 + (0 if omit else 1)
+    ref2 = zero + _z1d_reference(L2, R2)
+    other_menu = sorted({0, min(2 * min(L2, R2), n2 - 1), n2 - 1})
+
     def build(hist):
-        o = PairingToZ1d((-L, R))
-        obs = [int(o.project(i)) for i in hist]
+        o = PairingToZ1d((-L, R), **kw)
+        o2 = PairingToZ1d((-L2, R2), **kw)
+        obs = []
+        for ev in hist:
+            if ev == "c":
+                o = copy.deepcopy(o)
+                obs.append(None)
+            elif isinstance(ev, list):
+                obs.append(int(o2.project(ev[1])))
+            else:
+                obs.append(int(o.project(ev)))
         return o, obs
 
     def menu(state, hist):
-        return list(range(n))
+        return list(range(n)) + [["o", i] for i in other_menu] + ["c"]
 
     def canon(state, hist):
         o, obs = state
-        return (getattr(o, "_switch", None), getattr(o, "_kk", None), tuple(sorted(set(zip(hist, obs)))))
+        since = max([j for j, ev in enumerate(hist) if ev == "c"], default=-1)
+        mine = tuple(sorted({(ev, ob) for ev, ob in zip(hist[since + 1:], obs[since + 1:]) if isinstance(ev, int)}))
+        before = tuple(sorted({(ev, ob) for ev, ob in zip(hist[:since + 1], obs[:since + 1]) if isinstance(ev, int)}))
+        others = tuple(sorted({(ev[1], ob) for ev, ob in zip(hist, obs) if isinstance(ev, list)}))
+        return (getattr(o, "_switch", None), getattr(o, "_kk", None), mine, before, others)
 
     def invariant(state, hist, ev):
         o, obs = state
-        if ev is None:
+        if ev is None or ev == "c":
+            return None
+        mine = [e for e in hist if isinstance(e, int)]
+        plain = len(mine) == len(hist)
+        if isinstance(ev, list):
+            if obs[-1] != ref2[ev[1]]:
+                return (f"C14:z1d:project-depends-on-call-history:{shape}:second-object",
+                        f"[-{L2},{R2}] used next to [-{L},{R}]: after events {hist[:-1]}, project({ev[1]}) on the second object = "
+                        f"{obs[-1]} but its enumeration gives {ref2[ev[1]]}", {"history": hist, "observed": obs})
             return None
         if obs[-1] != ref[ev]:
-            first_out_of_order = any(hist[j] > hist[j + 1] for j in range(len(hist) - 1)) or hist[0] != 0
-            cls = "out-of-increasing-order" if (hist != sorted(hist) or hist != list(range(hist[0], hist[0] + len(hist))) or hist[0] > min(L, R) * 2) else "in-order"
+            if not plain:
+                cls = "after-deepcopy" if "c" in hist else "second-object-in-between"
+            else:
+                cls = "out-of-increasing-order" if (hist != sorted(hist) or hist != list(range(hist[0], hist[0] + len(hist))) or hist[0] > min(L, R) * 2) else "in-order"
             return (f"C14:z1d:project-depends-on-call-history:{shape}:{cls}",
-                    f"[-{L},{R}]: after project calls {hist[:-1]}, project({ev}) = {obs[-1]} but the enumeration in increasing order gives {ref[ev]}",
+                    f"[-{L},{R}]: after events {hist[:-1]}, project({ev}) = {obs[-1]} but the enumeration in increasing order gives {ref[ev]}",
                     {"history": hist, "observed": obs})
         return None
 
     s, t, d = core.bfs(sh, build, menu, canon, invariant, depth)
     sh.count("evaluations", t)
-    sh.outcome((L, R, tuple(seq), s))
+    sh.outcome((L, R, omit, tuple(seq), s))
     sh.nontriv()
-    if L == 2 and R == 4:
+    if L == 2 and R == 4 and omit:
         sh.sample({"sub": "z1d", "interval": [-L, R], "increasing": seq, "bfs_states": s, "bfs_transitions": t})
 
 
@@ -456,6 +640,22 @@ def _sub_lazy(sh, case):
         sh.violation(f"C14:lazy-product:not-every-tuple-exactly-once:{cls}",
                      f"lazy_indices_product({sizes}): {len(got)} tuples, {dup} duplicates, missing e.g. {missing}",
                      {"got": got[:12]})
+    # two generators alive at once (the second for the reversed sizes), consumed alternately: no shared state
+    rev = list(reversed(sizes))
+    g1, g2 = lazy_indices_product(list(sizes)), lazy_indices_product(rev)
+    a, b = [], []
+    for t1, t2 in itertools.zip_longest(g1, g2):
+        if t1 is not None:
+            a.append(tuple(int(v) for v in t1))
+        if t2 is not None:
+            b.append(tuple(int(v) for v in t2))
+    again = [tuple(int(v) for v in t) for t in lazy_indices_product(list(sizes))]
+    sh.count("evaluations", 3 * len(ref))
+    alone = [tuple(int(v) for v in t) for t in lazy_indices_product(list(rev))]
+    if a != got or again != got or b != alone:
+        sh.violation(f"C14:lazy-product:depends-on-other-generators-or-earlier-calls:{cls}",
+                     f"lazy_indices_product({sizes}) interleaved with lazy_indices_product({rev}), then called again: "
+                     f"{a[:6]}... / {b[:6]}... / {again[:6]}... instead of {got[:6]}...", None)
     sh.outcome((tuple(sizes), tuple(got[:3])))
     sh.nontriv()
     if sizes == [2, 3]:
@@ -490,7 +690,8 @@ def _sub_states(sh, case):
         pairing = PairingToZ1d((-L, R), omit_zero=True)
         ref = sorted((x,) for x in range(-L, R + 1) if x != 0)
     else:
-        pairing = PairingToZd(pairing=Szudzik() if dim == 2 else RosenbergStrong(), dimension=dim)
+        pname = case.get("pairing")
+        pairing = PairingToZd(pairing=_pairings()[pname] if pname else (Szudzik() if dim == 2 else RosenbergStrong()), dimension=dim)
         ref = sorted(t for t in itertools.product(*[range(-l, r + 1) for (l, r) in shape]) if any(t))
     boundary = Boundary()
     if bnd != "none":
@@ -501,12 +702,14 @@ def _sub_states(sh, case):
         else:
             boundary = SimplexBoundary([(-float(l), float(r)) for (l, r) in shape])
         ref = [t for t in ref if not bool(boundary(np.array([float(v) for v in t])))]
-        if len(ref) < 3:
+        if len(ref) < 2:
             raise AssertionError(f"alphabet error: boundary {bnd} leaves {len(ref)} states for {shape}")
     domain = Domain(boundary=boundary, grid=grid, pairing=pairing)
     equal = "equal-axes" if len(set(shape)) == 1 else "unequal-axes"
     if bnd != "none":
         equal = f"{bnd}-boundary:{equal}"
+    if case.get("pairing"):
+        equal = f"{case['pairing']}:{equal}"
     sym = "symmetric" if all(l == r for l, r in shape) else "asymmetric"
     try:
         sm = StatesManager(pairing=pairing, domain=domain, grid=grid)
@@ -590,3 +793,366 @@ def _sub_states(sh, case):
     sh.cls(f"states:d{dim}:boundary-{bnd}")
     if shape in ([(2, 3)], [(1, 1), (1, 2)]):
         sh.sample({"sub": "states", "shape": shape, "enumerated": got, "reference_size": len(ref)})
+
+
+# ----------------------------------------------------------------------------------------------------------------------
+# the enumeration through its caller (InversionMethod) and on re-used objects
+
+class _ScriptedChoice:
+    """numpy.random.choice replaced by 'first element' while the library runs (the state handed out on exhaustion is drawn
+    with the global generator; it is not judged here)."""
+
+    def __enter__(self):
+        import numpy.random as npr
+
+        self._npr, self._orig = npr, npr.choice
+        npr.choice = lambda a, *args, **kw: list(a)[0]
+        return self
+
+    def __exit__(self, *exc):
+        self._npr.choice = self._orig
+        return False
+
+
+def _make_boundary(bnd, shape):
+    from rpylib.distribution.pairing import Boundary, RectangleBoundary, SimplexBoundary
+
+    if bnd == "rectangle":
+        return RectangleBoundary([(-(l - 0.5), r - 0.5) for (l, r) in shape])
+    if bnd == "simplex":
+        return SimplexBoundary([(-float(l), float(r)) for (l, r) in shape])
+    return Boundary()
+
+
+def _make_pairing(grid):
+    """The pairing the library's factory (create_sampling_inversion_method) takes for that grid."""
+    from rpylib.distribution.pairing import PairingToZ1d, PairingToZd, RosenbergStrong, Szudzik
+
+    dim = len(grid.axes)
+    if dim == 1:
+        left = int(tuple(grid.origin_coordinate)[0])
+        return PairingToZ1d((-left, len(grid.axes[0]) - left - 1), omit_zero=True)
+    return PairingToZd(pairing=Szudzik() if dim == 2 else RosenbergStrong(), dimension=dim)
+
+
+def _key(inc):
+    return tuple(int(v) for v in np.atleast_1d(inc))
+
+
+def _reference_states(grid, boundary):
+    """Brute force over the public description of the grid (axes, origin index): every index tuple but the origin whose
+    grid point the boundary predicate accepts - no frontier, no largest index, no pairing involved."""
+    origin = tuple(int(v) for v in grid.origin_coordinate)
+    axes = [np.asarray(a, dtype=float) for a in grid.axes]
+    ref = []
+    for idx in itertools.product(*[range(len(a)) for a in axes]):
+        inc = tuple(i - o for i, o in zip(idx, origin))
+        if not any(inc):
+            continue
+        if bool(boundary(np.array([axes[k][i] for k, i in enumerate(idx)]))):
+            continue
+        ref.append(inc)
+    return sorted(ref)
+
+
+def _enumerate(sm, nref, stop_after=None):
+    """project_index_to_state_increment over increasing indices, as a caller without log does it. Returns (states, exhausted)."""
+    got = []
+    limit = 4 * nref + 50
+    for x in range(limit):
+        if stop_after is not None and len(got) >= stop_after:
+            return got, False
+        inc, done = sm.project_index_to_state_increment(x)
+        if done:
+            return got, True
+        got.append(_key(inc))
+    return got, False
+
+
+def _judge_enumeration(sh, prefix, what, got, exhausted, ref):
+    """The oracle of the last sentence of the statement. Returns True when the enumeration is right."""
+    sh.count("evaluations", len(got) + 1)
+    ok = True
+    if not exhausted:
+        sh.violation(f"{prefix}:no-exhaustion-signal", f"{what}: no exhaustion after {len(got)} states ({len(ref)} admissible)", None)
+        ok = False
+    dups = len(got) - len(set(got))
+    missing = sorted(set(ref) - set(got))
+    extra = sorted(set(got) - set(ref))
+    if dups:
+        sh.violation(f"{prefix}:state-enumerated-twice", f"{what}: {dups} duplicates in {got[:12]}...", None)
+    if extra:
+        sh.violation(f"{prefix}:inadmissible-state-enumerated", f"{what}: {extra[:5]}", None)
+    if missing:
+        sh.violation(f"{prefix}:missing", f"{what}: exhaustion signalled after {len(got)} of {len(ref)} states; missing {missing[:6]}",
+                     {"missing": missing[:40], "enumerated": got[:40]})
+    return ok and not (dups or extra or missing)
+
+
+_TARGETS_BOUNDED = ["first", "last-logged", "first-beyond", "second-beyond", "mid-beyond", "last", "exhaust"]
+_TARGETS_UNBOUNDED = ["first", "mid", "last", "exhaust"]
+
+
+def _sub_inversion(sh, case):
+    """InversionMethod.sample_with_u on a real StatesManager, scripted u, probabilities that record the states they are
+    asked for. Every word of `depth` draws over the target menu on a fresh sampler (depth 0: one sampler, one word in which
+    every ordered pair of targets occurs). Oracle per draw, all exact:
+      * the states walked through during the draw are a run of consecutive states of the enumeration, none twice, that
+        starts no later than the first state never seen so far and ends with the state the draw needs (the last admissible
+        state for a draw beyond the total mass: every state has then been produced before exhaustion was signalled);
+      * the state returned is the state of that rank (inverse of the cumulated probabilities; u is the middle of the step)."""
+    import copy
+
+    from rpylib.distribution.pairing import Domain, StatesManager
+    from rpylib.distribution.variate.inversion import InversionMethod
+
+    shape = [tuple(x) for x in case["shape"]]
+    dim, bnd, storage, depth = len(shape), case.get("boundary", "none"), case["storage"], case["depth"]
+    grid = make_grid(shape)
+    pairing = _make_pairing(grid)
+    boundary = _make_boundary(bnd, shape)
+    ref = _reference_states(grid, boundary)
+    n = len(ref)
+    with _ScriptedChoice():
+        order, exhausted = _enumerate(StatesManager(pairing=pairing, domain=Domain(boundary=boundary, grid=grid, pairing=pairing), grid=grid), n)
+    if sorted(order) != ref or not exhausted:
+        sh.count("skipped-enumeration-wrong-without-sampler")  # reported by the sub-check 'states' (same shapes there)
+        sh.note(f"inversion {shape} {bnd}: plain enumeration already differs from the reference; see C14:states")
+        if depth:
+            return
+        order = sorted(ref, key=lambda t: pairing.pair(t[0] if dim == 1 else t))
+    rank = {t: k for k, t in enumerate(order)}
+    weights = [1 + (7 * k) % 5 for k in range(n)]
+    total = sum(weights) / 0.9  # the probabilities add up to 0.9: u = 0.95 lies beyond the last state
+    probs = [w / total for w in weights]
+    cum = list(itertools.accumulate(probs))
+    walked = []
+
+    def probability(inc):
+        t = _key(inc)
+        walked.append(t)
+        k = rank.get(t)
+        return probs[k] if k is not None else 0.0
+
+    def probability2(inc):  # of the second sampler: total mass far below the u it is drawn with
+        walked.append(_key(inc))
+        return 1e-4
+
+    K = {"one": 1, "two": 2, "half": n // 2, "all-but-two": n - 2}.get(storage)
+    if K is not None and not (1 <= K <= n - 2):
+        sh.count("skipped-log-bound-not-below-number-of-states")
+        return
+
+    def fresh():
+        del walked[:]
+        sm = StatesManager(pairing=pairing, domain=Domain(boundary=boundary, grid=grid, pairing=pairing), grid=grid)
+        smp = InversionMethod(probability_to_jump_to_state=probability, state_manager=sm)
+        if K is not None:
+            if not hasattr(smp, "_max_storage"):
+                return None, None
+            smp._max_storage = K
+        keff = getattr(smp, "_max_storage", None)
+        return smp, (keff if isinstance(keff, int) and 1 <= keff <= n - 2 else None)
+
+    with _ScriptedChoice():
+        smp, keff = fresh()
+    if smp is None:
+        sh.count("skipped-log-bound-attribute-not-found")
+        return
+    if keff is None:
+        targets = {"first": 0, "mid": n // 2, "last": n - 1, "exhaust": None}
+        names = _TARGETS_UNBOUNDED
+        logcls = "log-holds-every-state"
+    else:
+        targets = {"first": 0, "last-logged": keff - 1, "first-beyond": keff, "second-beyond": min(keff + 1, n - 1),
+                   "mid-beyond": (keff + n) // 2, "last": n - 1, "exhaust": None}
+        names = _TARGETS_BOUNDED
+        logcls = "log-full"
+    if depth:
+        words = list(itertools.product(names, repeat=depth))
+    else:
+        # every ordered pair of targets as two consecutive draws of one history
+        w = []
+        for a in names:
+            for b in names:
+                w += [a, b]
+        words = [tuple(w)]
+    if depth:
+        # "copy": the sampler is replaced by a deepcopy of itself between two draws (what the engines do when they hand the
+        # process to the workers of a pool); "other": a second sampler on a larger grid draws beyond its total mass in between
+        words += [(a, ev, b) for ev in ("copy", "other") for a in names for b in names]
+    bcls = "no-boundary" if bnd == "none" else f"{bnd}-boundary"
+    prefix = f"C14:inversion:d{dim}:{bcls}:{logcls}"
+    other_shape = [(l, r + 1) for (l, r) in shape]
+    reported = set()
+
+    def report(kind, what, detail):
+        if kind not in reported:
+            reported.add(kind)
+            sh.violation(f"{prefix}:{kind}", what, detail)
+
+    for word in words:
+        with _ScriptedChoice():
+            if depth or smp is None:
+                smp, _ = fresh()
+            seen_upto = max([rank[t] for t in walked if t in rank], default=-1) + 1  # first rank never asked for
+            hist = []
+            for name in word:
+                hist.append(name)
+                if name == "copy":
+                    smp = copy.deepcopy(smp)
+                    continue
+                if name == "other":
+                    g2 = make_grid(other_shape)
+                    p2 = _make_pairing(g2)
+                    keep = list(walked)
+                    s2 = InversionMethod(probability_to_jump_to_state=probability2,
+                                         state_manager=StatesManager(pairing=p2, domain=Domain(boundary=boundary, grid=g2, pairing=p2), grid=g2))
+                    if K is not None:
+                        s2._max_storage = K
+                    s2.sample_with_u(0.999)
+                    r2 = _reference_states(g2, boundary)
+                    sh.count("evaluations")
+                    if sorted(walked[len(keep):]) != r2:
+                        report("second-sampler-in-between-does-not-walk-every-state-once",
+                               f"shape {other_shape}, boundary {bnd}, used between the draws {hist} on {shape}: walked "
+                               f"{len(walked) - len(keep)} states, {len(r2)} admissible", {"word": hist})
+                    walked[:] = keep
+                    continue
+                k = targets[name]
+                u = 0.95 if k is None else (cum[k] + (cum[k - 1] if k else 0.0)) / 2
+                del walked[:]
+                ret = _key(smp.sample_with_u(u))
+                walk = list(walked)
+                sh.count("evaluations")
+                where = f"shape {shape}, boundary {bnd}, log bound {keff}, draws {hist}"
+                ranks = [rank.get(t) for t in walk]
+                end = (n - 1) if k is None else k
+                if None in ranks or len(set(ranks)) != len(ranks):
+                    report("state-walked-twice-or-inadmissible-in-one-draw", f"{where}: walked {walk[:12]}", {"word": hist})
+                elif ranks and ranks != list(range(ranks[0], ranks[0] + len(ranks))):
+                    report("walk-not-in-enumeration-order", f"{where}: ranks walked {ranks[:20]}", {"word": hist})
+                elif ranks and ranks[0] > seen_upto:
+                    report("states-skipped", f"{where}: the walk starts at rank {ranks[0]} but rank {seen_upto} was never produced",
+                           {"word": hist, "ranks": ranks[:20]})
+                elif (ranks and ranks[-1] != end) or (not ranks and seen_upto <= end):
+                    report("walk-does-not-end-at-the-state-needed",
+                           f"{where}: needs the state of rank {end}{' (all, then exhaustion)' if k is None else ''}; ranks walked "
+                           f"{ranks[:6]}..{ranks[-3:]}; ranks below {seen_upto} produced before", {"word": hist})
+                if k is not None and ret != order[k]:
+                    report("draw-returns-wrong-state", f"{where}: u = {u!r} is in the step of rank {k} = {order[k]}, returned {ret}",
+                           {"word": hist})
+                if ranks and None not in ranks:
+                    seen_upto = max(seen_upto, max(ranks) + 1)
+    sh.outcome((tuple(shape), bnd, storage, keff, n, len(words)))
+    sh.nontriv()
+    sh.cls(f"inversion:d{dim}:boundary-{bnd}:{logcls}")
+    if shape == [(2, 2), (2, 3)] and storage == "half":
+        sh.sample({"sub": "inversion", "shape": shape, "log_bound": keff, "states": n, "words": len(words), "targets": targets})
+
+
+def _sub_reuse(sh, case):
+    """One Domain object kept through a history of public operations; after every operation a NEW StatesManager on it must
+    enumerate exactly the admissible states of the grid / boundary the Domain has now. Words: `first` then every
+    continuation of length depth-1 over REUSE_OPS (at most two refinements per word)."""
+    import copy
+
+    from rpylib.distribution.pairing import Boundary, Domain, RectangleBoundary, StatesManager
+    from rpylib.distribution.variate.inversion import InversionMethod
+
+    shape0 = [tuple(x) for x in case["shape"]]
+    dim, bnd0, depth = len(shape0), case.get("boundary", "none"), case["depth"]
+    bcls = "no-boundary" if bnd0 == "none" else f"{bnd0}-boundary"
+    reported = set()
+    nwords = 0
+
+    def judge(st, last, word):
+        """new StatesManager on the kept Domain: direct enumeration, then the same through a sampler's exhausting draw"""
+        G, D, P = st["G"], st["D"], st["P"]
+        ref = _reference_states(G, D.boundary)
+        if len(ref) < 1:
+            raise AssertionError(f"alphabet error: {len(ref)} admissible states after {word} from {shape0}")
+        prefix = f"C14:reuse:d{dim}:{bcls}:after-{last}"
+        if prefix in reported:
+            return
+        with _ScriptedChoice():
+            got, exhausted = _enumerate(StatesManager(pairing=P, domain=D, grid=G), len(ref))
+        what = f"shape {shape0}, history {word} (axes now {[len(a) for a in G.axes]} points)"
+        ok = _judge_enumeration(sh, prefix, what, got, exhausted, ref)
+        if not ok:
+            reported.add(prefix)
+            return
+        walked = []
+
+        def probability(inc):
+            walked.append(_key(inc))
+            return 0.5 / len(ref)
+
+        with _ScriptedChoice():
+            smp = InversionMethod(probability_to_jump_to_state=probability, state_manager=StatesManager(pairing=P, domain=D, grid=G))
+            smp.sample_with_u(0.75)
+        sh.count("evaluations", len(walked))
+        if walked != got:
+            reported.add(prefix)
+            sh.violation(f"{prefix}:sampler-walk-differs-from-plain-enumeration",
+                         f"{what}: a draw beyond the total mass walked {len(walked)} states {walked[:6]}..., the plain enumeration "
+                         f"gives {len(got)} states {got[:6]}...", None)
+
+    def apply(st, op):
+        G, D, P = st["G"], st["D"], st["P"]
+        if op == "refine":  # in place, as Coupling*.next_level does
+            G.refine()
+            if dim == 1:
+                st["P"] = D.pairing = _make_pairing(G)
+        elif op == "regrid":  # public attribute re-assigned: a larger grid (one more point to the right on every axis)
+            sizes = [(int(tuple(G.origin_coordinate)[0]), len(a) - int(tuple(G.origin_coordinate)[0])) for a in G.axes]
+            st["G"] = D.grid = make_grid(sizes)
+            if dim == 1:
+                st["P"] = D.pairing = _make_pairing(st["G"])
+        elif op == "boundary":  # public attribute re-assigned: no boundary <-> rectangle at 3/4 of the grid's extent
+            if type(D.boundary) is Boundary:
+                cand = RectangleBoundary([(0.75 * float(a[0]), 0.75 * float(a[-1])) for a in G.axes])
+                if len(_reference_states(G, cand)) >= 2:
+                    D.boundary = cand
+                else:
+                    sh.count("reuse-boundary-op-left-out-too-few-states")
+            else:
+                D.boundary = Boundary()
+        elif op == "copy":
+            st["D"] = D2 = copy.deepcopy(D)
+            st["G"], st["P"] = D2.grid, D2.pairing
+        elif op == "other":  # a second Domain on a larger grid, same boundary / pairing objects where the pairing allows
+            sizes = [(int(tuple(G.origin_coordinate)[0]) , len(a) - int(tuple(G.origin_coordinate)[0]) + 1) for a in G.axes]
+            G2 = make_grid(sizes)
+            P2 = P if dim > 1 else _make_pairing(G2)
+            D2 = Domain(boundary=D.boundary, grid=G2, pairing=P2)
+            ref2 = _reference_states(G2, D2.boundary)
+            with _ScriptedChoice():
+                got2, ex2 = _enumerate(StatesManager(pairing=P2, domain=D2, grid=G2), len(ref2))
+            pre = f"C14:reuse:d{dim}:{bcls}:second-domain"
+            if pre not in reported and not _judge_enumeration(sh, pre, f"shape {shape0}: second domain with axes {sizes}", got2, ex2, ref2):
+                reported.add(pre)
+        elif op == "half":  # a manager left half-way
+            with _ScriptedChoice():
+                _enumerate(StatesManager(pairing=P, domain=D, grid=G), 10 ** 6, stop_after=max(1, len(G.axes[0]) // 2))
+        else:
+            raise AssertionError(op)
+
+    words = [(case["first"],) + rest for rest in itertools.product(REUSE_OPS, repeat=depth - 1)]
+    for word in words:
+        if word.count("refine") > 2:
+            continue
+        nwords += 1
+        G = make_grid(shape0)
+        P = _make_pairing(G)
+        st = {"G": G, "P": P}
+        st["D"] = Domain(boundary=_make_boundary(bnd0, shape0), grid=G, pairing=P)
+        judge(st, "construction", [])
+        for j, op in enumerate(word):
+            apply(st, op)
+            judge(st, op, list(word[:j + 1]))
+    sh.outcome((tuple(shape0), bnd0, case["first"], nwords))
+    sh.nontriv()
+    sh.cls(f"reuse:d{dim}:boundary-{bnd0}:first-{case['first']}")
+    if shape0 == [(1, 2), (1, 1)] and case["first"] == "refine":
+        sh.sample({"sub": "reuse", "shape": shape0, "words": [list(w) for w in words]})
